@@ -10,7 +10,8 @@ import re
 from .. import build, core
 
 PROP = "C09"
-RULE = ("programs with 2 classes (instance + static int fields, methods that read/write fields "
+RULE = ("programs with 2 classes (instance + static int fields, one private field, destructors that use fields by bare "
+        "name, objects that die mid-unit through block exit or destroy, methods that read/write fields "
         "and statics by bare name and via this, calls between methods and free functions), 3-5 "
         "free functions and main, integer state only; for each program every capture-avoiding "
         "renaming (unit, local or parameter, target name) is enumerated up to a cap: targets are "
@@ -26,6 +27,7 @@ ASSUMPTIONS = ["renamings are capture-avoiding by construction: the target is ne
 FIELDS_A = ["count", "total", "size"]
 FIELDS_B = ["level", "extra"]
 STATICS = ["made", "hits"]
+PRIVATE_A = ["secret"]      # private to A: not nameable from B's methods, so a B local may carry the name
 
 
 class Unit:
@@ -70,7 +72,7 @@ class Gen:
         return str(r.randint(1, 9))
 
     def fields_of(self, cls):
-        return FIELDS_A + (FIELDS_B if cls == "B" else [])
+        return FIELDS_A + (FIELDS_B if cls == "B" else PRIVATE_A)
 
     def callable_from(self, u):
         r = self.r
@@ -140,7 +142,21 @@ class Gen:
                 u.body.append("if ({%s} > %d) {" % (v, r.randint(0, 20)))
                 u.body.append("    {%s} = {%s} - %d;" % (v, v, r.randint(1, 5)))
                 u.body.append("}")
-            elif u.kind != "main":
+            elif k < 0.965 and u.kind in ("function", "main", "method"):
+                # an object that dies in the middle of this unit (block exit or destroy): its destructors
+                # run while this unit's locals are live
+                t = self.fresh("t")
+                u.loopvars.append(t)
+                cls = r.choice(["A", "B"])
+                if r.random() < 0.5:
+                    u.body.append("{")
+                    u.body.append("    %s {%s} = new %s(%d);" % (cls, t, cls, r.randint(1, 9)))
+                    u.body.append('    echo("%s:" + {%s}.size);' % (u.name, t))
+                    u.body.append("}")
+                else:
+                    u.body.append("%s {%s} = new %s(%d);" % (cls, t, cls, r.randint(1, 9)))
+                    u.body.append("destroy {%s};" % t)
+            elif u.kind not in ("main", "dtor"):
                 # early return from inside a loop (the loop's scope must still be closed)
                 j = self.fresh("j")
                 u.loopvars.append(j)
@@ -171,6 +187,12 @@ class Gen:
             self.units.append(u)
             self.body(u, r.randint(1, 2))
             u.body.append("return %s;" % self.int_expr(u))
+            u = Unit("dtor", "dtor" + cls, cls, [], "void")
+            self.units.append(u)
+            self.body(u, r.randint(1, 3))
+            f = r.choice(self.fields_of(cls))
+            u.free.add(f)
+            u.body.append('echo("~%s:" + %s);' % (cls, f))
         for i in range(r.randint(3, 5)):
             params = [(self.fresh("q"), r.choice(["int", "int", "A", "B"])) for _ in range(r.randint(1, 3))]
             u = Unit("function", self.fresh("fn"), None, params, "int")
@@ -191,6 +213,9 @@ class Gen:
                 main.body.append('echo("main:" + %s);' % c)
         for o, cls in main.objs:
             main.body.append('echo({%s}.count + {%s}.total);' % (o, o))
+        # objects die one at a time, in program order (the order at a common scope exit is not fixed)
+        for o, cls in main.objs:
+            main.body.append('destroy {%s};' % o)
         return self
 
     def names_of(self, u):
@@ -211,6 +236,9 @@ class Gen:
             for f in (FIELDS_A if cls == "A" else FIELDS_B):
                 out.append("    public int %s = %d;" % (f, len(f)))
             if cls == "A":
+                for f in PRIVATE_A:
+                    out.append("    private int %s = %d;" % (f, len(f)))
+            if cls == "A":
                 for s in STATICS:
                     out.append("    public static int %s = 0;" % s)
                 out.append("    public constructor(int c0) -> A {\n        count = c0;\n        made = made + 1;\n        return this;\n    }")
@@ -220,7 +248,10 @@ class Gen:
                 if u.cls != cls:
                     continue
                 ps = ", ".join("%s %s" % (t, fmt(u, "{%s}" % p)) for p, t in u.params)
-                out.append("    public %sfunction %s(%s) -> int {" % ("static " if u.kind == "static" else "", u.name, ps))
+                if u.kind == "dtor":
+                    out.append("    public destructor() -> void {")
+                else:
+                    out.append("    public %sfunction %s(%s) -> int {" % ("static " if u.kind == "static" else "", u.name, ps))
                 for line in u.body:
                     out.append("        " + fmt(u, line))
                 out.append("    }")
@@ -251,15 +282,18 @@ class Gen:
             own = set(self.names_of(u))
             # names the unit's body uses freely (must not be captured)
             free = set(u.free) | {v.name for v in self.units} | {"A", "B", "this", "echo"}
-            if u.cls:
-                # a bare name in a method may also denote any field/static of its class hierarchy
+            if u.cls and u.kind == "static":
+                # a static method can name statics only: an instance-field name is free for its locals
+                free |= set(STATICS)
+            elif u.cls:
+                # a bare name in a method may also denote any accessible field/static of its hierarchy
                 free |= set(self.fields_of(u.cls)) | set(STATICS)
             for old in sorted(own):
                 out.append((u.name, old, "zz_fresh_%s" % old, "fresh"))
                 for tgt, owner in sorted(all_locals.items()):
                     if owner != u.name and tgt not in own and tgt not in free:
                         out.append((u.name, old, tgt, "other-local"))
-                for f in FIELDS_A + FIELDS_B:
+                for f in FIELDS_A + FIELDS_B + PRIVATE_A:
                     if f not in free and f not in own:
                         out.append((u.name, old, f, "field"))
                 for s in STATICS:
@@ -330,7 +364,8 @@ def run(ctx):
         if a == b:
             continue
         unit = next(u for u in g.units if u.name == ren[0])
-        where = {"function": "function", "method": "method", "static": "static-method", "main": "main"}[unit.kind]
+        where = {"function": "function", "method": "method", "static": "static-method", "main": "main",
+                     "dtor": "destructor"}[unit.kind]
         how = "status" if a[0] != b[0] else "output"
         if b[0] == "diag" and b[1] == "Semantic":
             key = "scope:%s-in-%s:rejected" % (ren[3], where)
